@@ -2,6 +2,8 @@ import RimeModel.C18.Value
 /-! helper lemmas for the key-path theorems of C18 (free to change) -/
 namespace RimeModel.C18
 
+set_option linter.unusedSimpArgs false
+
 /-! ### resolved locations -/
 
 /-- one resolved step of a location: a map key or a list index -/
